@@ -6,6 +6,7 @@
 From Coq Require Import List Bool Arith Reals QArith Qcanon.
 From SV Require Import Base.Num C09.Defs C09.Spec C09.Impl C09.Thm C09.Exec C09.ExecThm C09.GenSig C09.Gen.
 From SVGen Require Import C09_Metric.
+From SVGen Require C09_L0 C09_L1 C09_SqL2 C09_L2 C09_L1mL2 C09_SqL2Loss C09_SqL2AbsLoss C09_SqL2SqAbsLoss.
 Import ListNotations.
 Open Scope R_scope.
 
@@ -245,6 +246,50 @@ Theorem C09_gen_metric_exec : forall rt lg : Qc -> Qc,
 Proof. exact gen_metric_exec. Qed.
 Print Assumptions C09_gen_metric_exec.
 
+(** the [__call__] methods of L0Norm, L1Norm, SquaredL2Norm, L2Norm and L1MinusL2Norm as REGENERATED FROM scico/functional/_norm.py
+    on every run (coq/gen/C09_{L0,L1,SqL2,L2,L1mL2}.v), with count_nonzero / snp.sum / snp.abs / norm interpreted by the
+    array operations of C09/Impl.v ([NS_impl]): equal to the documented norms for all arrays and every beta (over R) ... *)
+Theorem C09_gen_norms :
+  (forall d : list cxR, C09_L0.call_gen (NS:=NS_impl sqrt) d = l0_spec d) /\
+  (forall d : list cxR, C09_L1.call_gen (NS:=NS_impl sqrt) d = l1_spec sqrt d) /\
+  (forall d : list cxR, C09_SqL2.call_gen (NS:=NS_impl sqrt) d = sql2_spec d) /\
+  (forall d : list cxR, C09_L2.call_gen (NS:=NS_impl sqrt) d = l2_spec sqrt d) /\
+  (forall (beta : R) (d : list cxR), C09_L1mL2.call_gen (NS:=NS_impl sqrt) (C09_L1mL2.mk_st beta) d = l1ml2_spec sqrt beta d).
+Proof. exact gen_norm_spec. Qed.
+Print Assumptions C09_gen_norms.
+
+(** ... and identical to the [*_impl] functions the correspondence check executes at [Qc] *)
+Theorem C09_gen_norms_exec : forall rt : Qc -> Qc,
+  (forall d : list (cx (K:=Qc)), l0_impl d = C09_L0.call_gen (NS:=NS_impl rt) d) /\
+  (forall d : list (cx (K:=Qc)), l1_impl rt d = C09_L1.call_gen (NS:=NS_impl rt) d) /\
+  (forall d : list (cx (K:=Qc)), sql2_impl rt d = C09_SqL2.call_gen (NS:=NS_impl rt) d) /\
+  (forall d : list (cx (K:=Qc)), l2_impl rt d = C09_L2.call_gen (NS:=NS_impl rt) d) /\
+  (forall (beta : Qc) (d : list (cx (K:=Qc))), l1ml2_impl rt beta d = C09_L1mL2.call_gen (NS:=NS_impl rt) (C09_L1mL2.mk_st beta) d).
+Proof. exact gen_norm_exec. Qed.
+Print Assumptions C09_gen_norms_exec.
+
+(** [__call__] of SquaredL2Loss, SquaredL2AbsLoss and SquaredL2SquaredAbsLoss as REGENERATED FROM scico/loss.py on every run
+    (coq/gen/C09_SqL2*Loss.v; [w] = W.diagonal, [A] any forward map): the documented weighted sums, for all data *)
+Theorem C09_gen_losses :
+  (forall alpha (w : list R) (y : list cxR) (A : list cxR -> list cxR) x,
+     C09_SqL2Loss.call_gen (NS:=NS_impl sqrt) (LS:=LS_impl) w (C09_SqL2Loss.mk_st alpha y A) x = sql2loss_spec alpha w y (A x)) /\
+  (forall alpha (w : list R) (y : list cxR) (A : list cxR -> list cxR) x,
+     C09_SqL2AbsLoss.call_gen (NS:=NS_impl sqrt) (LS:=LS_impl) w (C09_SqL2AbsLoss.mk_st alpha y A) x = sql2abs_spec sqrt alpha w y (A x)) /\
+  (forall alpha (w : list R) (y : list cxR) (A : list cxR -> list cxR) x,
+     C09_SqL2SqAbsLoss.call_gen (NS:=NS_impl sqrt) (LS:=LS_impl) w (C09_SqL2SqAbsLoss.mk_st alpha y A) x = sql2sqabs_spec alpha w y (A x)).
+Proof. exact gen_loss_spec. Qed.
+Print Assumptions C09_gen_losses.
+
+Theorem C09_gen_losses_exec : forall rt : Qc -> Qc,
+  (forall alpha (w : list Qc) (y : list (cx (K:=Qc))) (A : list (cx (K:=Qc)) -> list (cx (K:=Qc))) x,
+     sql2loss_impl rt alpha w y (A x) = C09_SqL2Loss.call_gen (NS:=NS_impl rt) (LS:=LS_impl) w (C09_SqL2Loss.mk_st alpha y A) x) /\
+  (forall alpha (w : list Qc) (y : list (cx (K:=Qc))) (A : list (cx (K:=Qc)) -> list (cx (K:=Qc))) x,
+     sql2abs_impl rt alpha w y (A x) = C09_SqL2AbsLoss.call_gen (NS:=NS_impl rt) (LS:=LS_impl) w (C09_SqL2AbsLoss.mk_st alpha y A) x) /\
+  (forall alpha (w : list Qc) (y : list (cx (K:=Qc))) (A : list (cx (K:=Qc)) -> list (cx (K:=Qc))) x,
+     sql2sqabs_impl rt alpha w y (A x) = C09_SqL2SqAbsLoss.call_gen (NS:=NS_impl rt) (LS:=LS_impl) w (C09_SqL2SqAbsLoss.mk_st alpha y A) x).
+Proof. exact gen_loss_exec. Qed.
+Print Assumptions C09_gen_losses_exec.
+
 (** *** non-vacuity: the executable instance evaluates the same definitions on concrete data *)
 Example C09_ex_l2ball_boundary :
   l2ball_exec (q (5 # 1)) (LR [3 # 1; (-4) # 1]) = Fin 0%Qc /\
@@ -275,4 +320,10 @@ Example C09_ex_gen_metric :
                rel_res_gen (MS:=MS_impl qrt lg) (LR [0 # 1]) (LR [0 # 1]);
                bsnr_gen (MS:=MS_impl qrt lg) (LR [1 # 1; 3 # 1]) (LR [2 # 1; 3 # 1]); bsnr_impl lg (LR [1 # 1; 3 # 1]) (LR [2 # 1; 3 # 1])]
   = [5 # 2; 5 # 2; 0 # 1; 40 # 1; 40 # 1]%Q.
+Proof. vm_compute. reflexivity. Qed.
+
+Example C09_ex_gen_norms :
+  map (@this) [C09_L0.call_gen (NS:=NS_impl qrt) (LR [3 # 1; 0 # 1; (-4) # 1]); C09_L1.call_gen (NS:=NS_impl qrt) (LR [3 # 1; 0 # 1; (-4) # 1]);
+               C09_SqL2.call_gen (NS:=NS_impl qrt) (LR [3 # 1; 0 # 1; (-4) # 1])]
+  = [2 # 1; 7 # 1; 25 # 1]%Q.
 Proof. vm_compute. reflexivity. Qed.
